@@ -176,6 +176,9 @@ func formatCase(c *h.Case) {
 	if g.r.Intn(2) == 0 {
 		defaultsViaFiles(c, g, cdoc, sdoc, texts)
 	}
+	if cdoc != nil && g.r.Intn(4) == 0 {
+		includesViaFiles(c, g, cdoc)
+	}
 	if c.Idx < 3 {
 		run.Sample(map[string]any{"kind": c.Data["kind"], "toml": short(texts["toml"])})
 	}
@@ -391,4 +394,77 @@ func pickUnknown(g *gen, valid map[string]bool) string {
 		}
 	}
 	return "zzUnknown"
+}
+
+// includesViaFiles: the proxies of one logical configuration split over a main file and included files
+// written in other formats load like the single document.
+func includesViaFiles(c *h.Case, g *gen, cdoc *clientDoc) {
+	if len(cdoc.Proxies) < 2 {
+		return
+	}
+	dir := filepath.Join(h.RunDir(prop), "cfg", fmt.Sprintf("inc-%d-%d", c.Idx, os.Getpid()))
+	if err := os.MkdirAll(dir, 0o755); err != nil {
+		run.Inconclusive("cannot write configuration file")
+		return
+	}
+	defer os.RemoveAll(dir)
+	k := 1 + g.r.Intn(len(cdoc.Proxies)-1)
+	mainTree := cloneTree(cdoc.Tree).(*obj)
+	var mainList, incList []any
+	for i, p := range cdoc.Proxies {
+		if i < k {
+			mainList = append(mainList, p.Tree)
+		} else {
+			incList = append(incList, p.Tree)
+		}
+	}
+	mainTree.set("proxies", mainList)
+	glob := filepath.Join(dir, "inc-*")
+	mainTree.set("includes", []any{glob})
+	// one or two included files (directory order = name order), each in its own format
+	parts := [][]any{incList}
+	if len(incList) > 1 && g.r.Intn(2) == 0 {
+		m := 1 + g.r.Intn(len(incList)-1)
+		parts = [][]any{incList[:m], incList[m:]}
+	}
+	var used []string
+	for i, part := range parts {
+		f := formats[g.r.Intn(3)]
+		used = append(used, f)
+		o := &obj{}
+		o.set("proxies", part)
+		if g.r.Intn(3) == 0 {
+			o.set("serverAddr", "ignored.example") // common settings of an included file are not used
+		}
+		if err := os.WriteFile(filepath.Join(dir, fmt.Sprintf("inc-%d.%s", i+1, f)), []byte(render(f, o, g.r)), 0o644); err != nil {
+			run.Inconclusive("cannot write configuration file")
+			return
+		}
+	}
+	mf := formats[g.r.Intn(3)]
+	text := render(mf, mainTree, g.r)
+	mp := filepath.Join(dir, "main."+mf)
+	if err := os.WriteFile(mp, []byte(text), 0o644); err != nil {
+		run.Inconclusive("cannot write configuration file")
+		return
+	}
+	common, proxies, visitors, _, err := config.LoadClientConfig(mp, g.r.Intn(2) == 0)
+	if err != nil {
+		c.Ev("doc", "format", mf, "text", text)
+		c.Violation("file-loader-rejects-clean-document-"+mf, "LoadClientConfig on a clean %s document with includes (%v): %v\n%s", mf, used, err, short(text))
+		return
+	}
+	withInc := *cdoc
+	withInc.Common.IncludeConfigFiles = []string{glob}
+	wc, wp, wv := modelCompleteClient(&withInc)
+	var d []string
+	d = append(d, diffValues(wc, common)...)
+	d = append(d, diffValues(wp, proxies)...)
+	d = append(d, diffValues(wv, visitors)...)
+	run.Count("include_loads", 1)
+	run.Distinct("inc|" + mf + "|" + strings.Join(used, ",") + "|" + treeHash(cdoc.Tree)[:8])
+	if len(d) > 0 {
+		c.Ev("doc", "format", mf, "text", text)
+		c.Violation("includes-"+pathKey(d[0]), "configuration split over a %s file and included %v files loads differently from the single document (expected != loaded): %s", mf, used, strings.Join(d, "; "))
+	}
 }
